@@ -10,7 +10,7 @@
     [preauthChild_pinned] is the test as it stands in the pinned source (string prefix without a
     separator), kept for the refutation theorem. *)
 From Coq Require Import List NArith Bool Arith.
-From TwLib Require Import PyPath.
+From TwLib Require Import PyPath PyPathDir.
 Import ListNotations.
 
 Section WithCwd.
@@ -118,59 +118,116 @@ Inductive outcome :=
 | Served (p : bytes)        (* File.render_GET opened p for reading *)
 | Listing (p : bytes)       (* DirectoryLister for p rendered *)
 | Redirect                  (* a directory without trailing slash *)
-| NotFound
-| Error500.                 (* os.stat refused the name (embedded NUL): ValueError -> 500 *)
+| NotFound                  (* File.childNotFound (whatever resource is configured there) rendered *)
+| Error500                  (* os.stat refused the name (embedded NUL): ValueError -> 500 *)
+| Processed (p : bytes) (rest : list bytes)   (* self.processors[ext](p, registry) renders; [rest] = request.postpath *)
+| StaticChild (i : nat) (rest : list bytes).  (* a resource registered with putChild on the root renders *)
 
-Inductive res := RFile (p : bytes) | RLister (p : bytes) | RNotFound | RError.
+Inductive res := RFile (p : bytes) | RLister (p : bytes) | RNotFound | RError | RProc (p : bytes).
+
+Definition star : bytes := [42]%N.
+
+Fixpoint assoc {A} (k : bytes) (l : list (bytes * A)) : option A :=
+  match l with
+  | [] => None
+  | (k', v) :: r => if beq k k' then Some v else assoc k r
+  end.
 
 Section Static.
   Variable cwd : bytes.
   Variables (isdir exists_ : bytes -> bool).      (* the file system: arbitrary *)
+  Variable listdir : bytes -> list bytes.         (* os.listdir, in the order the OS gives *)
   Variable indexNames : list bytes.
+  Variable ignoredExts : list bytes.              (* File.ignoredExts: "" / "*" / ".ext" *)
+  Variable processed : bytes -> bool.             (* self.processors has an entry for splitext(path)[1] *)
+  Variable children : list (bytes * nat).         (* root.putChild(name, resource number i) *)
 
-  (** File.getChild for a File at [p] (with the default empty ignoredExts and no processors) *)
-  Definition getChild (p seg : bytes) : res :=
-    if negb (utf8_valid seg) then RNotFound
-    else if negb (isdir p) then RNotFound
+  (** FilePath.siblingExtensionSearch, given the extensions exts, on the (non-existing) path p; the ghost list records the
+      directory listing the "*" extension performs *)
+  Fixpoint sibSearch (p : bytes) (exts : list bytes) : list access * option bytes :=
+    match exts with
+    | [] => ([], None)
+    | e :: r =>
+        if is_nil e && exists_ p then ([], Some (abspath cwd p))
+        else
+          let wild := if beq e star
+                      then ([AListdir (dirname p)],
+                            find (fun fn => startswith fn (basename p ++ [DT])) (listdir (dirname p)))
+                      else ([], None) in
+          match snd wild with
+          | Some fn => (fst wild, Some (abspath cwd (pjoin (dirname p) fn)))
+          | None =>
+              if exists_ (p ++ e) then (fst wild, Some (abspath cwd (p ++ e)))
+              else let '(acc, o) := sibSearch p r in (fst wild ++ acc, o)
+          end
+    end.
+
+  (** what File.getChild does once it holds the candidate path f *)
+  Definition resolve (f : bytes) : list access * res :=
+    if has_nul f then ([], RError)
+    else
+      let '(acc, g) := if exists_ f then ([], Some f) else sibSearch f ignoredExts in
+      match g with
+      | None => (acc, RNotFound)
+      | Some g => (acc, if processed g then RProc g else RFile g)
+      end.
+
+  (** File.getChild for a File at [p] *)
+  Definition getChild (p seg : bytes) : list access * res :=
+    if negb (utf8_valid seg) then ([], RNotFound)
+    else if negb (isdir p) then ([], RNotFound)
     else if negb (is_nil seg) then
       match child cwd p seg with
-      | None => RNotFound
-      | Some f => if has_nul f then RError else if exists_ f then RFile f else RNotFound
+      | None => ([], RNotFound)
+      | Some f => resolve f
       end
     else
       match childSearchPreauth cwd exists_ p indexNames with
-      | None => RLister p
-      | Some f => if exists_ f then RFile f else RNotFound
+      | None => ([AListdir p], RLister p)     (* DirectoryLister is built eagerly: listdir happens here *)
+      | Some f => resolve f
       end.
 
-  (** resource.getChildForRequest from a File at [p]; the ghost list records directory listings
-      (DirectoryLister is built eagerly: listdir happens inside getChild) *)
-  Fixpoint walk (p : bytes) (post : list bytes) : list access * res :=
+  (** resource.getChildForRequest from a File at [p]: accesses, final resource, unconsumed segments *)
+  Fixpoint walk (p : bytes) (post : list bytes) : list access * res * list bytes :=
     match post with
-    | [] => ([], RFile p)
+    | [] => ([], RFile p, [])
     | seg :: r =>
-        match getChild p seg with
-        | RFile f => walk f r
-        | RLister d => ([AListdir d], match r with [] => RLister d | _ :: _ => RNotFound end)
-        | RNotFound => ([], RNotFound)
-        | RError => ([], RError)
+        let '(acc, g) := getChild p seg in
+        match g with
+        | RFile f => let '(acc', g', rest) := walk f r in (acc ++ acc', g', rest)
+        | RLister d => (acc, match r with [] => RLister d | _ :: _ => RNotFound end, [])
+        | RProc f => (acc, RProc f, r)          (* the harness's processors are leaves *)
+        | RNotFound => (acc, RNotFound, [])
+        | RError => (acc, RError, [])
         end
     end.
 
-  (** Request.process + render for "GET <urlpath>" on a Site whose root resource is File(root) *)
-  Definition serve_segments (root : bytes) (post : list bytes) : list access * outcome :=
-    let '(acc, r) := walk root post in
+  (** render of the resource the traversal ended at *)
+  Definition serve_walk (root : bytes) (post : list bytes) : list access * outcome :=
+    let '(acc, r, rest) := walk root post in
     match r with
     | RFile f =>
         if exists_ f then
           if isdir f then (acc, Redirect) else (acc ++ [AOpen f], Served f)
         else (acc, NotFound)
     | RLister d => (acc, Listing d)
+    | RProc f => (acc, Processed f rest)
     | RNotFound => (acc, NotFound)
     | RError => (acc, Error500)
     end.
 
-  (** [urlpath] is request.path (starts with '/'); postpath = map unquote (path[1:].split('/')) *)
+  (** Request.process for a Site whose root resource is File(root) with [children] registered on it;
+      [post] = map unquote (path[1:].split("/")) *)
+  Definition serve_segments (root : bytes) (post : list bytes) : list access * outcome :=
+    match post with
+    | seg :: r =>
+        match assoc seg children with
+        | Some i => ([], StaticChild i r)
+        | None => serve_walk root post
+        end
+    | [] => serve_walk root post
+    end.
+
   Definition serve (root urlpath : bytes) : list access * outcome :=
     serve_segments root (map unquote (split_sl (tl urlpath))).
 End Static.
